@@ -83,6 +83,30 @@ CLAIMS = {
         "note": "trusted: Lean kernel + propext/Classical.choice/Quot.sound; the hand-written model (Mb2.Tags/Mb2.Sweep) outside the generated cases; rustc layout/codegen, core::str::from_utf8 and CStr (modelled by Lean's ByteArray.validateUTF8 / first-NUL search, compared on generated inputs); the Python oracle (vlib/oracle.py) as independent transcription of the property; harness, guard pages; Debug output is observed as panic / no panic only",
         "technique": "Lean 4 proof (no-fault theorems over a checked-read memory model) + differential correspondence + guard-page / poison detectors",
     },
+    "C07": {
+        "text": "Lean 4 theorems over the constructor model ctorImpl (struct field order, the size constant each constructor writes, new_boxed for heap-built tags): sized_ctor_exact (all 13 fixed-size information-tag constructors, ALL argument values: type = the kind's ID = specification number, size = Spec.fixedSize = exact unpadded byte count = number of initialised bytes, header decodes, size_of_val = size rounded up to 8), boxed_ctor_exact (all content slices: exact size, no gaps, never panics), cmdline/loader size = fixed + |s| + 1 with exactly one NUL (and unchanged when already NUL-terminated), bootdev_readback. Tied to /repo by CTOR cases for all 34 public constructors of both crates (boundary + random argument blobs, every content-length residue), dev+release; an independent Python transcription of the specification's encoding is compared with the REAL constructors' bytes, type, size, alignment and as_bytes() on every case.",
+        "design": "DESIGN.md section 6 (C07)",
+        "note": "trusted: Lean kernel + propext/Classical.choice/Quot.sound; the hand-written model (Mb2.Build) outside the generated cases; rustc layout/codegen; Box / allocator behaviour (observed through a tracking global allocator); the Python oracle (vlib/oracle.py: expected_ctor etc.) as independent transcription of the specification; harness; padding bytes behind the declared size are uninitialised in stack-built tags and not compared",
+        "technique": "Lean 4 proof + differential correspondence + independent encoding oracle",
+    },
+    "C16": {
+        "text": "Lean 4 theorems: partition_irrelevant (new_boxed depends on the slices only through their concatenation), newBoxed_generic_tag (for any header image and content: header with size = 8 + total, content without gaps, 8-aligned allocation of the total rounded up to 8, never panics), dealloc_eq_alloc (whenever new_boxed returns, the size handed to dealloc equals the allocation size, for every header kind and target type), clone_identity (cloning a tag of any size >= 8 gives the same declared size and the same bytes up to it: padding is not cloned). Tied to /repo by BOXED cases (all content lengths 0..24, all cut points / random partitions into 0..4 slices, three header kinds) and CLONE cases (12 dynamically sized kinds of both crates x content lengths 0..17) with a tracking global allocator recording allocation and deallocation layouts. PARTIAL: `freed exactly once` is Box semantics, observed (one dealloc event with the allocation layout), not modelled.",
+        "design": "DESIGN.md section 6 (C16), section 9",
+        "note": "trusted: Lean kernel + propext/Classical.choice/Quot.sound; the hand-written model (Mb2.Build) outside the generated cases; rustc layout/codegen; Box / allocator behaviour (observed through a tracking global allocator); the Python oracle (vlib/oracle.py: expected_ctor etc.) as independent transcription of the specification; harness",
+        "technique": "Lean 4 proof + differential correspondence + allocator instrumentation in the harness",
+    },
+    "C06": {
+        "text": "Lean 4 theorems: walk_concat / built_area_walk (by induction over the list: the tag area image_1 ++ ... ++ image_n ++ end tag of well-formed images walks to exactly those images, in order, at their offsets, followed by one end tag, ending cleanly; generic in the header kind), sizedImg_wf, slot_put_same / slot_put_other (an Option slot keeps the last tag, a Vec slot all tags in call order, other slots untouched), with C16's content law for the final new_boxed. Tied to /repo by BUILD cases through the REAL constructors and builder methods: empty builder, every slot, all ordered pairs, 4096 random subsets in random order (thorough: all 2^21 subsets of the non-VBE slots), repeats, invalid custom types; the Python oracle checks alignment, load, exact total size, per-kind tag sequences byte-identical up to size, final end tag.",
+        "design": "DESIGN.md section 6 (C06)",
+        "note": "trusted: Lean kernel + propext/Classical.choice/Quot.sound; the hand-written model (Mb2.Build) outside the generated cases; rustc layout/codegen; Box / allocator behaviour (observed through a tracking global allocator); the Python oracle (vlib/oracle.py: expected_ctor etc.) as independent transcription of the specification; harness; the order of DIFFERENT kinds is not fixed by the property and not checked by the oracle (the model follows the code's order)",
+        "technique": "Lean 4 proof (induction over tag lists / slot updates) + differential correspondence + oracle",
+    },
+    "C12": {
+        "text": "Lean 4 theorems: built_header_area_walk (header-tag walk of tag_1 ++ ... ++ tag_n ++ end tag = the supplied tags + the terminating end tag (type 0, flags 0, size 8)), set_size_keeps_checksum_valid (new_boxed's set_size writes length = byte count and a checksum with magic + arch + length + checksum = 0 mod 2^32, for every length/architecture; magic and architecture untouched), slot lemmas and C10.checksum_law. Tied to /repo by HBUILD: ALL 2^10 subsets of builder slots x both architectures (exhaustive in every run) with random contents, random orders, repeats, all information-request lengths 0..8; oracle checks magic, architecture, length, checksum, load, tags byte-identical, end tag.",
+        "design": "DESIGN.md section 6 (C12)",
+        "note": "trusted: Lean kernel + propext/Classical.choice/Quot.sound; the hand-written model (Mb2.Build) outside the generated cases; rustc layout/codegen; Box / allocator behaviour (observed through a tracking global allocator); the Python oracle (vlib/oracle.py: expected_ctor etc.) as independent transcription of the specification; harness",
+        "technique": "Lean 4 proof + exhaustive (2^10 x 2) differential correspondence + oracle",
+    },
 }
 
 NOT_YET = "not yet claimed: the Lean model, theorems and correspondence check for this property are still being built (DESIGN.md section 12 gives the order); the technique applies and the property will be claimed"
